@@ -33,3 +33,10 @@ check(
     "'units/type error' is read as an exception derived from UnitsError, TypeError or ValueError; dimensionless operands and 'Unknown' are exempt as the statement says; the source side of a conversion is always valid.",
     "4/C05",
 )
+check(
+    "C06",
+    "runtime monitoring: exhaustive sweep of the live table - factors observed through the real conversion functions (both directions) and through Scalar arithmetic, judged by a unit-symbol grammar oracle with written-precision tolerance",
+    "Exhaustive over the 1548 rows of the shipped table: 914 decomposable rows compared (both conversion directions + dynamic composition with barril's own arithmetic), 141 SI-prefixed atomic rows; 34 inconsistent rows are listed as known findings keyed by row and wrong ratio.",
+    "Tolerance = 16 x the precision the row is written in (calibrated: empty gap between ratio 15 and 647 on the pinned table) with floor 2e-5; rows with offsets, multi-slash symbols and ambiguous F/C factors are skipped, never alarmed on.",
+    "4/C06",
+)
